@@ -21,7 +21,24 @@ the components compute is exact in binary64 (see `wholekit.py`), so no float ari
 The random block is a parameter `B : seed string → size → Array` (`Blk`), instantiated with
 `RandomBlock.blockOf` (`RandomState(get_hash(ks)).random_sample(size)` bit for bit) by `runWhole` /
 the driver; one block is computed per draw request, exactly as `RandomnessStream.get_draw` does, and
-read through `RandomBlock.memoBlk` (`Props/Whole.lean::draws_eq_real`: that is `Stream.getDraw realBlk`). -/
+read through `RandomBlock.memoBlk` (`Props/Whole.lean::draws_eq_real`: that is `Stream.getDraw realBlk`).
+
+Details of the real code the model reproduces (each one was needed for the tables to agree):
+* seed string `"_".join([decision point, str(clock), str(additional_key), seed])` with
+  `seed = str(random_seed) + str(additional_seed)`; `str(None) = "None"` where no additional key is passed
+  (`filter_for_probability`, the machine's `random.choice`, the initial-state `choice`); streams of the
+  transition sets are called `transition_set.<state id>`;
+* block size `max(map_size, 10 * population_size)`; the CRN-initialising stream reads the block POSITIONALLY
+  (`raw_draws[:len(index)]`), every other stream at the simulant's index-map position (identity without key
+  columns – a label outside the block is an `IndexError`);
+* `register_simulants` uses the CLOCK (not the event time) as salt; the initial population is created at
+  `start - step` (fencepost), a newborn at the clock of its step; an event's `time` is `clock + step`;
+* the index of an event is the population as it is BEFORE the event's listeners run: a simulant born in a channel is
+  not in that event's index (it is in the index of the later channels of the same step);
+* listeners are called by priority bucket (0 … 9), inside a bucket in registration order (= component setup order);
+* the machine and the mortality component see TRACKED simulants only; nothing ever tracks a simulant again;
+* `_convert_to_ten_digit_int`: int columns and the int salt go through `_spread` (with int64 wrap-around for 50+ bit
+  keys), a float key `k / 2^bits` through `_shift` = `floor(k * 10^10 / 2^bits)`. -/
 namespace Viv.Whole
 open Viv
 
@@ -229,16 +246,17 @@ def mkStates (B : Blk) (cfg : Config) (evIdx : List Nat) (s : State) :
                trans := sp.trans.map fun t => { out := t.1, w := s.rows.map fun r => t.2.getD r.sex 0 },
                draws := ds } :: sds)
 
-/-- `WDisease.act`: `Machine.transition(event.index, event.time)` – the real machine reads the TRACKED
-simulants of the index through its view; table positions are handed to the C17 model -/
+/-- `WDisease.act`: `Machine.transition(event.index, event.time)`. The table positions of the whole event index are
+handed to the C17 model together with the `tracked` column: the machine's own population view drops the untracked
+simulants (`Machine.statePops` / `Row.seen`), exactly as the real `_get_state_pops` does -/
 def disease (B : Blk) (cfg : Config) (evIdx : List Nat) (s : State) : Except Err State :=
-  let idx := (s.rows.zipIdx.filter fun p => live evIdx p.1).map (·.2)
+  let idx := (s.rows.zipIdx.filter fun p => evIdx.contains p.1.label).map (·.2)
   if idx.isEmpty then .ok s else
   match mkStates B cfg evIdx s (cfg.states.zipIdx.map fun p => (p.2, p.1)) with
   | .error e => .error e
   | .ok sds =>
     let m : Machine.Mach := { wd := 16, dd := 2 ^ 53, states := sds }
-    match Machine.transition m 2 (s.rows.map fun r => ⟨r.st, 0⟩) idx with
+    match Machine.transition m 2 (s.rows.map fun r => { st := r.st, other := 0, tracked := r.tracked }) idx with
     | .error _ => .error .value
     | .ok tab => .ok { s with rows := List.zipWith (fun r (mr : Machine.Row) => { r with st := mr.st }) s.rows tab }
 
